@@ -184,7 +184,15 @@ impl Scenario for C18 {
                 "OriginCategory" => &["backport", "vendor", "upstream", "other"],
                 _ => &[],
             };
-            if !kws.is_empty() && rng.chance(1, 2) {
+            if !kws.is_empty() && rng.chance(1, 6) {
+                // a keyword with one letter replaced by a character that upper- or lower-cases to it (dotless i, long s,
+                // Kelvin sign): equal only after a Unicode case mapping
+                let kw = rng.s(kws).to_string();
+                let swapped: String = kw.chars().map(|c| match c { 'i' => '\u{131}', 's' => '\u{17f}', 'k' => '\u{212a}', o => o }).collect();
+                if swapped != kw {
+                    args[2] = swapped;
+                }
+            } else if !kws.is_empty() && rng.chance(1, 2) {
                 let kw = rng.s(kws).to_string();
                 let deco = rng.s(&[" (HIGH for users)", " (x)", " (", "(x)", " x", " ;", ";", ",", ", x", "=1", "/x", ":", " #c", "\nx", " -", "!", "?", "'", "\""]);
                 args[2] = if rng.chance(1, 8) { format!("{}{}", deco.trim_start(), kw) } else { format!("{kw}{deco}") };
@@ -484,8 +492,8 @@ impl Scenario for C18 {
                 use debian_copyright::License as L;
                 let val = match sel % 6 {
                     0 => L::Name(a[2].clone()),
-                    1 => L::Text(format!("{}\n{}", a[2], a[3])),
-                    2 => L::Named(a[2].clone(), format!("{}\n.\n{}", a[3], a[2])),
+                    1 => L::Text(format!("{}\n{}{}", a[2], a[3], ["", "\n", "\n\n"][(sel / 6) % 3])),
+                    2 => L::Named(a[2].clone(), format!("{}\n.\n{}{}", a[3], a[2], ["", "\n"][(sel / 6) % 2])),
                     // degenerate but representable values
                     3 => L::Named(a[2].clone(), String::new()),
                     4 => L::Text(String::new()),
